@@ -202,6 +202,11 @@ func errDiscSite(p *Program, obs *obSet, fn *ssa.Function, ci ssa.CallInstructio
 					if rv == ev || derivesFromErr(rv, ev, 3) {
 						return v.St, true
 					}
+					// the operation fails anyway, with an error constructed on the spot from another failure
+					// (e.g. a second call failed before this error was examined): nothing is claimed to have succeeded
+					if succ, known := successReturn(ret); known && !succ {
+						return v.St, true
+					}
 				}
 				if breach == nil {
 					v.Note("%s: return", p.InstrPos(x))
